@@ -226,3 +226,244 @@ def _hc_wildcard():
     finally:
         m.match_neighbor = real
     return bool(r['failures'])
+
+
+# ---------------------------------------------------------------------------------------------------------------------
+# acknowledgement order and "a failing command changes no RIB": the command-processing statements of the reactor's main
+# loop (for ... in received_async(): api.process(...) / asynchronous._run_async() / flush_write_queue()) are EXTRACTED
+# from Reactor._async_main_loop at run time and executed unmodified on a real Reactor object holding real Peers, a real
+# Processes (commands arrive through a real pipe and the real reader callback, replies leave through a real pipe), the
+# real API dispatcher and the real ASYNC scheduler.
+TWO_NEIGHBORS = """
+process p {
+    run /bin/true;
+    encoder json;
+}
+neighbor 127.0.0.1 {
+    router-id 1.2.3.4; local-address 127.0.0.1; local-as 65000; peer-as 65001;
+    family { ipv4 unicast; }
+    api { processes [ p ]; }
+}
+neighbor 127.0.0.2 {
+    router-id 1.2.3.4; local-address 127.0.0.1; local-as 65000; peer-as 65002;
+    family { ipv4 unicast; }
+    api { processes [ p ]; }
+}
+"""
+
+
+class _Api:
+    def __init__(self):
+        import asyncio
+        from exabgp.configuration.configuration import Configuration
+        from exabgp.reactor.api import API
+        from exabgp.reactor.api.processes import Processes
+        from exabgp.reactor.asynchronous import ASYNC
+        from exabgp.reactor.loop import Reactor
+        from exabgp.rib import RIB
+        from .extract import async_runner
+
+        RIB._cache.clear()
+        self.loop_body = async_runner('reactor/loop.py', 'Reactor._async_main_loop', 'for service, command in self.processes.received_async()', 'await self.processes.flush_write_queue()')
+        r = Reactor.__new__(Reactor)
+        r.configuration = Configuration([TWO_NEIGHBORS], text=True)
+        r._peers = {}
+        r._ips = []
+        r.listener = None
+        if not r.reload():
+            raise RuntimeError(f'harness configuration refused: {r.configuration.error}')
+        pr = Processes()
+        self.cmd_r, self.cmd_w = os.pipe()  # the helper's stdout: commands
+        self.ans_r, self.ans_w = os.pipe()  # the helper's stdin: replies
+        os.set_blocking(self.cmd_r, False)
+        os.set_blocking(self.ans_r, False)
+
+        class Proc:
+            stdout = os.fdopen(self.cmd_r, 'rb', buffering=0)
+            stdin = os.fdopen(self.ans_w, 'wb', buffering=0)
+
+            def poll(self_inner):
+                return None
+
+        pr._process['p'] = Proc()
+        pr._async_mode = True
+        pr._ack['p'] = True
+        pr._ackjson['p'] = False
+        pr._sync = getattr(pr, '_sync', {})
+        try:
+            pr._sync['p'] = False
+        except Exception:  # noqa
+            pass
+        r.processes = pr
+        r.asynchronous = ASYNC()
+        r.asynchronous.set_error_handler(pr.answer_error_sync)
+        r.api = API(r)
+        self.reactor, self.processes = r, pr
+
+    def deliver(self, data: bytes):
+        os.write(self.cmd_w, data)
+        self.processes._async_reader_callback('p')
+
+    async def iterate(self, n=1):
+        for _ in range(n):
+            await self.loop_body(self=self.reactor)
+
+    def idle(self):
+        return not self.processes._command_queue and not self.reactor.asynchronous._async and not any(self.processes._write_queue.values())
+
+    def replies(self):
+        out = b''
+        try:
+            while True:
+                d = os.read(self.ans_r, 65536)
+                if not d:
+                    break
+                out += d
+        except BlockingIOError:
+            pass
+        return [l for l in out.decode('ascii', 'replace').split('\n') if l.strip()]
+
+    def ribs(self):
+        res = {}
+        for name, peer in self.reactor._peers.items():
+            rib = peer.neighbor.rib.outgoing
+            routes = set()
+            for u in rib.updates(False):
+                for r in getattr(u, 'announces', []):
+                    routes.add(('+', str(r.nlri)))
+                for n in getattr(u, 'withdraws', []):
+                    routes.add(('-', str(n)))
+            res[str(peer.neighbor.session.peer_address)] = routes
+        return res
+
+    def close(self):
+        for fd in (self.cmd_w, self.ans_r):
+            try:
+                os.close(fd)
+            except OSError:
+                pass
+
+
+def terminal(line):
+    """'done' / 'error' for a terminal reply line (text or JSON form), None for anything else"""
+    l = line.strip()
+    if l in ('done', 'error'):
+        return l
+    if l.startswith('{') and '"answer"' in l:
+        return 'done' if '"done"' in l else 'error' if '"error"' in l else None
+    return None
+
+
+# (command, expected terminal reply, effect: set of (neighbor, sign, prefix))
+N1, N2 = '127.0.0.1', '127.0.0.2'
+COMMANDS = [
+    ('peer * announce route 10.0.1.0/24 next-hop 192.0.2.1', 'done', {(N1, '+', '10.0.1.0/24'), (N2, '+', '10.0.1.0/24')}),
+    ('peer 127.0.0.1 announce route 10.0.2.0/24 next-hop 192.0.2.1', 'done', {(N1, '+', '10.0.2.0/24')}),
+    ('peer 127.0.0.2 announce route 10.0.3.0/24 next-hop 192.0.2.1 med 5', 'done', {(N2, '+', '10.0.3.0/24')}),
+    ('bogus command', 'error', set()),
+    ('peer * announce route 10.0.4.0/24 next-hop 192.0.2.1 med 4294967296', 'error', set()),
+    ('peer 127.0.0.9 announce route 10.0.5.0/24 next-hop 192.0.2.1', 'error', set()),
+    ('peer * announce route 10.0.6.0/24', 'error', set()),
+    ('peer * announce frobnicate 10.0.7.0/24', 'error', set()),
+]
+
+
+async def burst_case(indices, lines_per_read):
+    w = _Api()
+    cmds = [COMMANDS[i] for i in indices]
+    inp = {'commands': [c for c, _e, _x in cmds], 'lines_per_read': lines_per_read}
+    try:
+        for k in range(0, len(cmds), lines_per_read):
+            w.deliver(''.join(c + '\n' for c, _e, _x in cmds[k : k + lines_per_read]).encode())
+            # the reactor keeps turning while the helper is silent
+            for _ in range(2 * lines_per_read + 2):
+                await w.iterate()
+        for _ in range(40):
+            if w.idle():
+                break
+            await w.iterate()
+        got = [t for t in (terminal(l) for l in w.replies()) if t]
+        want = [e for _c, e, _x in cmds]
+        if len(got) != len(want):
+            return {'what': f'{len(got)} terminal replies for {len(want)} commands: {got}', 'input': inp}
+        if got != want:
+            return {'what': f'the replies are not in command order: {got} instead of {want}', 'input': inp}
+        ribs = w.ribs()
+        want_rib = {N1: set(), N2: set()}
+        for _c, _e, eff in cmds:
+            for nb, sign, pfx in eff:
+                want_rib[nb].add((sign, pfx))
+        for nb in (N1, N2):
+            extra = ribs.get(nb, set()) - want_rib[nb]
+            missing = want_rib[nb] - ribs.get(nb, set())
+            if extra:
+                return {'what': f'neighbor {nb} has routes no accepted command asked for (a refused command or a selector leak): {sorted(extra)}', 'input': inp}
+            if missing:
+                return {'what': f'neighbor {nb} lacks routes of accepted commands: {sorted(missing)}', 'input': inp}
+        return None
+    finally:
+        w.close()
+
+
+def _run(coro):
+    import asyncio
+
+    loop = asyncio.new_event_loop()
+    asyncio.set_event_loop(loop)
+    try:
+        return loop.run_until_complete(asyncio.wait_for(coro, 60))
+    finally:
+        loop.close()
+
+
+def burst_cases(tier, rnd):
+    n = len(COMMANDS)
+    cases = []
+    # every ordered pair, delivered in one read and in two reads
+    for a in range(n):
+        for b in range(n):
+            if a != b:
+                cases.append(((a, b), 2))
+                if tier == 'thorough':
+                    cases.append(((a, b), 1))
+    for _ in range(12 if tier == 'quick' else 60):
+        k = rnd.randint(3, 7)
+        idx = tuple(rnd.randrange(n) for _ in range(k))
+        cases.append((idx, rnd.choice([1, 2, 3, k])))
+    return cases
+
+
+@bounded('C14', 'command-bursts')
+def command_bursts(tier, seed):
+    rnd = random.Random(seed)
+    fails, evals = [], 0
+    for idx, per in burst_cases(tier, rnd):
+        evals += 1
+        f = _run(burst_case(idx, per))
+        if f:
+            fails.append(f)
+    return {'evaluations': evals, 'distinct_nontrivial': evals, 'bound': f'every ordered pair of {len(COMMANDS)} commands (accepted for all / one neighbor, unknown, unparsable, value out of range, selector matching nobody, incomplete route) coalesced in one read, plus sampled sequences of 3-7 commands at 1, 2, 3 or all lines per read; two neighbors', 'rule': 'one case = (command sequence, lines per read)', 'samples': [{'commands': [COMMANDS[0][0], COMMANDS[3][0]], 'lines_per_read': 2}], 'failures': fails}
+
+
+@replayer('C14', 'command-bursts')
+def _replay_bursts(f):
+    idx = tuple([c for c, _e, _x in COMMANDS].index(c) for c in f['input']['commands'])
+    return _run(burst_case(idx, f['input']['lines_per_read'])) is None
+
+
+@harness_canary('C14', 'scheduled callbacks run newest first (replies out of command order)')
+def _hc_order():
+    from exabgp.reactor.asynchronous import ASYNC
+
+    real = ASYNC.schedule
+
+    def newest_first(self, uid, command, callback):
+        self._async.appendleft((uid, callback))
+
+    case = ((0, 4), 2)  # accepted for all, then a value out of range: done, error -- both scheduled
+    ok = _run(burst_case(*case)) is None
+    ASYNC.schedule = newest_first
+    try:
+        return ok and _run(burst_case(*case)) is not None
+    finally:
+        ASYNC.schedule = real
